@@ -11,7 +11,7 @@ ALL = [f"C{i:02d}" for i in range(1, 21)]
 
 def main():
     checks = []
-    for pid, (tech, text, note, ref) in CLAIMED.items():
+    for pid, (tech, text, note, ref) in sorted(CLAIMED.items()):
         checks.append({
             "property_id": pid,
             "quick_cmd": f"./check {pid} quick",
